@@ -93,6 +93,14 @@ func (g *sgen) shadows(name string) bool {
 	return false
 }
 
+// nipVar picks a writable variable for a loop without init clause ("" if there is none).
+func (g *sgen) nipVar() string {
+	if v, ok := g.writable(); ok {
+		return v.name
+	}
+	return ""
+}
+
 var pool = []string{"x", "y", "v", "w"}
 
 func (g *sgen) pickName() string { return pool[g.rng.Intn(len(pool))] }
@@ -316,6 +324,27 @@ func (g *sgen) stmt(depth int) {
 			}
 			g.line("}")
 		}
+	case r < 70 && g.inLoop > 0 && g.nipVar() != "":
+		// three-clause loop WITHOUT init over an outer variable (a cursor shared by all runs of the loop):
+		// inside an enclosing loop the very same loop statement is entered several times
+		v := g.nipVar()
+		bound := 2 + g.rng.Intn(4)
+		g.push()
+		g.declare(v, true) // the body must not assign the cursor (termination)
+		switch g.rng.Intn(3) {
+		case 0:
+			g.line("for ; %s < %d; %s++ {", v, bound, v)
+		case 1:
+			g.line("for ; tr.R(%d, %s) < %d; %s += 2 {", g.nid(), v, bound, v)
+		default:
+			g.line("for ; %s < %d && %s; %s++ {", v, bound+2, g.cond(), v)
+		}
+		g.feats["for:nip"] = true
+		g.inLoop++
+		g.block(depth+1, 3)
+		g.inLoop--
+		g.line("}")
+		g.pop()
 	case r < 78:
 		// three-clause loop whose counter comes from the pool (shadowing), optional yielding post
 		name := g.pickName()
